@@ -559,8 +559,35 @@ func genClientServices(t *rapid.T, ids []string) ([]docdid.Service, []interface{
 			want = append(want, map[string]interface{}{"id": id, "type": typ, "serviceEndpoint": uri, "priority": float64(prio), "recipientKeys": []interface{}{"did:example:1#k"}})
 		}
 	}
+	// custom properties: a map the caller owns, possibly one map for several services and for several calls; every service
+	// comes out with these members next to its own, the map stays what it was
+	if len(svcs) > 0 && rapid.Bool().Draw(t, "svcProperties") {
+		var props map[string]interface{}
+		if len(c08Props) > 0 && rapid.Bool().Draw(t, "propertiesOfEarlierCall") {
+			props = c08Props[rapid.IntRange(0, len(c08Props)-1).Draw(t, "earlierProperties")].live
+		} else {
+			props = map[string]interface{}{"note": "n" + ids[0], "weight": float64(rapid.IntRange(1, 9).Draw(t, "weight"))}
+			c08Props = append(c08Props, c08PropSnap{props, refJCS(props)})
+		}
+		for i := range svcs {
+			if i == 0 || rapid.IntRange(0, 2).Draw(t, "sameProperties") > 0 {
+				svcs[i].Properties = props
+				for k, v := range props {
+					want[i].(map[string]interface{})[k] = v
+				}
+			}
+		}
+	}
 	return svcs, want
 }
+
+type c08PropSnap struct {
+	live map[string]interface{}
+	json string
+}
+
+// c08Props: the property maps handed to the client during one lifecycle.
+var c08Props []c08PropSnap
 
 const cannedResolution = `{"@context":"https://w3id.org/did-resolution/v1","didDocument":{"@context":["https://www.w3.org/ns/did/v1"],"id":"did:ion:abc"}}`
 
@@ -589,6 +616,14 @@ func TestC08_SidetreeClient(t *testing.T) {
 		kids := genUniqueIDs(t, 1, 3, "keyID")
 		sids := genUniqueIDs(t, 0, 2, "svcID")
 		pks, wantKeys := genClientKeys(t, kids)
+		c08Props = nil
+		defer func() {
+			for _, ps := range c08Props {
+				if refJCS(ps.live) != ps.json {
+					t.Fatalf("C08 the client changed a service's custom properties map that belongs to the caller\n before %s\n after  %s", ps.json, refJCS(ps.live))
+				}
+			}
+		}()
 		svcs, wantSvcs := genClientServices(t, sids)
 		opts := []create.Option{create.WithRecoveryPublicKey(rec.Public()), create.WithUpdatePublicKey(upd.Public()), create.WithMultiHashAlgorithm(alg)}
 		for i := range pks {
